@@ -319,8 +319,10 @@ def main(tier):
             cfg = os.path.join(wd, f"flags_{disc}.cfg")
             tlc.write_cfg(cfg, spec="Spec", constants=dict(Discipline=disc, MaxLeaves=2, MaxDepth=3),
                           invariants=["Quiescent", "LabelIsInnermostStructured", "FlattenStaysOn"])
-            chk.add_tlc(f"JtFlags[{disc}]" + (" (must be refuted)" if expect else ""), tlc.run("JtFlags", cfg, wd, workers=4),
-                        expect_violation=expect)
+            rf = tlc.run("JtFlags", cfg, wd, workers=4, args=["-coverage", "1"])
+            chk.add_tlc(f"JtFlags[{disc}]" + (" (must be refuted)" if expect else ""), rf, expect_violation=expect)
+            if not expect:
+                chk.action_coverage("JtFlags", rf, ["Begin", "SetFlatten", "RestoreFlatten", "NextLeaf", "LeafDone", "End", "Raise"])
         ops, _, _ = build_ops()
         names = sorted(ops)
         singles = [[(n, 0, "")] for n in names]
